@@ -47,10 +47,20 @@ type faultScanner struct {
 	delivered bool // the failure has been returned at least once
 	once      bool // the failure is transient: returned once, then the source goes on
 	err       error
+	withRune  bool // the first failing call also hands over the next rune, with its size
 }
 
 func (f *faultScanner) ReadRune() (rune, int, error) {
 	if f.n >= f.k && !(f.once && f.delivered) {
+		if f.withRune && !f.delivered && f.off < len(f.s) {
+			f.delivered = true
+			r, w := utf8.DecodeRuneInString(f.s[f.off:])
+			f.off += w
+			f.n++
+			f.k++
+			f.lastSize = w
+			return r, w, f.err
+		}
 		f.delivered = true
 		f.lastSize = 0
 		return 0, 0, f.err
@@ -133,6 +143,8 @@ type c10Case struct {
 	Err string `json:"err,omitempty"`
 	// WithData / Chunk (io.Reader only): the error is returned by the same
 	// Read call as the last bytes before it; at most Chunk bytes per call.
+	// WithData for the scanner: the failing ReadRune call returns the next
+	// rune and its size along with the error.
 	WithData bool `json:"with_data,omitempty"`
 	Chunk    int  `json:"chunk,omitempty"`
 }
@@ -145,7 +157,7 @@ func checkC10(c c10Case) (bool, error) {
 		fr := &faultReader{s: c.Src, k: c.K, once: c.Once, err: c10Errs[c.Err], withData: c.WithData, chunk: c.Chunk}
 		src, delivered = fr, func() bool { return fr.delivered }
 	} else {
-		fs := &faultScanner{s: c.Src, k: c.K, once: c.Once, err: c10Errs[c.Err]}
+		fs := &faultScanner{s: c.Src, k: c.K, once: c.Once, err: c10Errs[c.Err], withRune: c.WithData}
 		src, delivered = fs, func() bool { return fs.delivered }
 	}
 	type res struct {
@@ -298,6 +310,18 @@ func TestC10(t *testing.T) {
 							fail(tt, "C10", "chunking", cc, "%v", err)
 						}
 						st.Class("chunking_compared")
+					}
+					if reader == "scanner" {
+						// the failing call hands over a rune as well: whatever is
+						// done with the rune, the failure is reported
+						cc := c10Case{Src: src, K: k, Reader: reader, Any: anySrc, Once: k%2 == 1, Err: c.Err, WithData: true}
+						jr.begin("C10", "fault", cc)
+						_, err := checkC10(cc)
+						jr.end()
+						if err != nil {
+							fail(tt, "C10", "fault", cc, "%v", err)
+						}
+						st.Class("scanner_fault_with_a_rune")
 					}
 					if k%3 == 0 {
 						c.Once = false
